@@ -29,6 +29,7 @@ import (
 
 // ClusterCase: real proxy client/search ingestor over real stores on the simulated transport.
 type ClusterCase struct {
+	InProcess    bool         `json:"in_process,omitempty"` // stores are called without a transport (single mode)
 	Property     string       `json:"property"`
 	Seed         uint64       `json:"seed"`
 	Knobs        simenv.Knobs `json:"knobs"`
